@@ -138,6 +138,35 @@ Theorem C04_negotiation_input_as_coded :
 Proof. exact negotiation_input_as_coded. Qed.
 Print Assumptions C04_negotiation_input_as_coded.
 
+(* the server's extension-driven negotiation state after the second ClientHello does not depend on the
+   first one (nor on anything added to it in transit); C04e = regression witness *)
+Theorem C04_negotiate_forgets_first_hello :
+  forall g s0 ch1 ch1' ch2,
+    server_negotiation_with true g s0 ch1 ch2 = server_negotiation_with true g s0 ch1' ch2.
+Proof. exact negotiate_forgets_first_hello. Qed.
+Print Assumptions C04_negotiate_forgets_first_hello.
+
+Theorem C04_negotiate_independent_of_prior_state :
+  forall g s1 s2 hello, n_rest s1 = n_rest s2 ->
+    negotiate_with true g s1 hello = negotiate_with true g s2 hello.
+Proof. exact negotiate_independent_of_prior_state. Qed.
+Print Assumptions C04_negotiate_independent_of_prior_state.
+
+Theorem C04_negotiate_without_reset_refuted :
+  exists g s0 ch1 ch1' ch2,
+    server_negotiation_with false g s0 ch1 ch2 <> server_negotiation_with false g s0 ch1' ch2 /\
+    n_sni (server_negotiation_with false g s0 ch1' ch2) = Some 7 /\
+    n_sni (server_negotiation_with true g s0 ch1' ch2) = None.
+Proof. exact negotiate_without_reset_refuted. Qed.
+Print Assumptions C04_negotiate_without_reset_refuted.
+
+Theorem C04_negotiation_reset_as_coded :
+  if server12_resets_inside_negotiation
+  then forall g s0 ch1 ch1' ch2, server_negotiation g s0 ch1 ch2 = server_negotiation g s0 ch1' ch2
+  else exists g s0 ch1 ch1' ch2, server_negotiation g s0 ch1 ch2 <> server_negotiation g s0 ch1' ch2.
+Proof. exact negotiation_reset_as_coded. Qed.
+Print Assumptions C04_negotiation_reset_as_coded.
+
 (* the premises are satisfiable (free term algebra), and the witness is stopped by the fix, by EMS
    and by client authentication *)
 Theorem C04_premises_satisfiable :
